@@ -97,7 +97,22 @@ def main(pid, run_fn, replay_fn=None):
         sys.exit(0 if ok else 1)
     p = Probe(pid)
     t0 = time.time()
-    run_fn(p)
+    try:
+        run_fn(p)
+    except Exception as e:  # noqa
+        # Safety net: an exception that escapes from the IMPLEMENTATION (innermost frame under the repo) while the
+        # probe was building or evaluating a valid case is a violation ("valid input raised"), not an infrastructure
+        # failure; an exception raised by the probe's own code is re-raised (infrastructure).
+        import traceback
+        tb = traceback.format_exc()
+        cause = getattr(e, '__cause__', None)
+        text = tb + (str(cause) if cause is not None else '')
+        frames = [l.strip() for l in text.split('\n') if l.strip().startswith('File "')]
+        impl_last = bool(frames) and (REPO + '/') in frames[-1]
+        if not impl_last:
+            raise
+        p.violation(f'implementation-raised:{type(e).__name__}', 'probe_aborted', {'traceback_tail': frames[-3:]},
+                    f'{type(e).__name__}: {e}', 'no exception on a valid input', frames[-1])
     rep = p.report()
     rep['wall_s'] = time.time() - t0
     write_json(a.out, rep)
